@@ -741,6 +741,12 @@ func (r *resolver) expandUses(parent HasDataDefinitions, u *Uses) ([]Definition,
 			return nil, fmt.Errorf("cannot add %s. %s does not allow actions", u.ident, SchemaPath(u))
 		}
 		rpc := a.clone(parent).(*Rpc)
+		if on, err := checkFeature(rpc); err != nil {
+			return nil, err
+		} else if !on {
+			r.noteDisabled(parent, a.Ident())
+			continue
+		}
 		if err = hasActions.addAction(rpc); err != nil {
 			return nil, err
 		}
@@ -754,6 +760,12 @@ func (r *resolver) expandUses(parent HasDataDefinitions, u *Uses) ([]Definition,
 			return nil, fmt.Errorf("cannot add %s. %s does not allow notifications", u.ident, SchemaPath(u))
 		}
 		notify := a.clone(parent).(*Notification)
+		if on, err := checkFeature(notify); err != nil {
+			return nil, err
+		} else if !on {
+			r.noteDisabled(parent, a.Ident())
+			continue
+		}
 		if err = hasNotifs.addNotification(notify); err != nil {
 			return nil, err
 		}
@@ -1065,6 +1077,12 @@ func (r *resolver) expandAugment(y *Augment, parent Meta) error {
 			return fmt.Errorf("%s - cannot add action %s, %T does not allow actions", SchemaPath(y), orig.Ident(), target)
 		}
 		d := orig.clone(target).(Definition)
+		if on, err := checkFeature(d.(HasIfFeatures)); err != nil {
+			return err
+		} else if !on {
+			r.noteDisabled(target, orig.Ident())
+			continue
+		}
 		if err := hasActions.addAction(d.(*Rpc)); err != nil {
 			return err
 		}
@@ -1079,6 +1097,12 @@ func (r *resolver) expandAugment(y *Augment, parent Meta) error {
 			return fmt.Errorf("%s - cannot add notification %s, %T does not allow notifications", SchemaPath(y), orig.Ident(), target)
 		}
 		d := orig.clone(target).(Definition)
+		if on, err := checkFeature(d.(HasIfFeatures)); err != nil {
+			return err
+		} else if !on {
+			r.noteDisabled(target, orig.Ident())
+			continue
+		}
 		if err := hasNotifs.addNotification(d.(*Notification)); err != nil {
 			return err
 		}
